@@ -1413,12 +1413,17 @@ class ServiceClass:
             within the generator in which case the exception and traceback
             are yielded instead.
         """
+        # Imported here to avoid a circular import
+        from pynetdicom.pdu_primitives import A_RELEASE
+
         try:
             for result in handler:
                 # Ensure we are still associated
-                if (
-                    self.assoc.acse.is_aborted()
-                    or self.assoc.acse.is_release_requested()
+                # Only peek at a pending A-RELEASE indication, it must stay
+                #   queued so the association reactor can respond to it
+                primitive = self.assoc.dul.peek_next_pdu()
+                if self.assoc.acse.is_aborted() or (
+                    isinstance(primitive, A_RELEASE) and primitive.result is None
                 ):
                     LOGGER.debug(
                         "A-ABORT or A-RELEASE-RQ received during Q/R sub-operations"
